@@ -23,7 +23,7 @@ RULE = (
     "coll: programs of append/insert/setitem/remove/pop/extend/replace/clear/set-operators/dict set/del/pop/update, child-side backref sets, flush/commit/expire "
     "over a list, set, dict one-to-many and a list many-to-many collection on a new, loaded or expired parent with persisted and brand-new children. "
     "Non-trivial: the program returns an attribute to its committed value after changing it, or mutates an attribute whose old value is not loaded, "
-    "or replaces a whole collection with one sharing members; distinct = canonical JSON of the program"
+    "or replaces a whole collection with one sharing members, or (many-to-one sub-check) the object's row arrives again through a query while a change or `del` is pending; distinct = canonical JSON of the program"
 )
 ASSUMPTIONS = [
     "History conventions as documented in orm/attributes.py History / changelog migration_10 ('None' set vs never set), migration_13 (del ~ set None), migration_14 (empty collection access is not a change): "
@@ -473,6 +473,20 @@ def check_ref(case, ctx):
                     continue
                 sess.expire(c)
                 m = _Attr(UNKNOWN, UNTOUCHED)
+            elif op == "requery":
+                # the object's row arrives again through a query (identity-map hit; the session does not autoflush): loading must fill in
+                # only what is unloaded and leave every pending change, including a `del`, and its history alone
+                if not persistent:
+                    ctx.info("skipped:requery-of-pending-object")
+                    continue
+                from sqlalchemy import select
+
+                got = sess.scalars(select(C)).all()
+                if len(got) != 1 or got[0] is not c:
+                    raise Violation("C36/ref/requery-identity", f"step {step}: query returned {got!r}")
+                if m.cur != UNTOUCHED:
+                    nontrivial = True
+                    classes.add("requery-over-pending-change")
             else:
                 raise HarnessError(op)
             classes.add(op)
@@ -1000,7 +1014,7 @@ def _scalar_programs(draw):
 
 @st.composite
 def _ref_programs(draw):
-    ops = draw(st.lists(st.tuples(st.sampled_from(["set"] * 5 + ["del", "read", "flush", "flush", "commit", "expire"]), st.integers(0, 3)), min_size=1, max_size=20))
+    ops = draw(st.lists(st.tuples(st.sampled_from(["set"] * 5 + ["del", "del", "read", "flush", "flush", "commit", "expire", "requery", "requery"]), st.integers(0, 3)), min_size=1, max_size=20))
     return {"kind": draw(st.sampled_from(["plain", "active"])), "start": draw(st.sampled_from(["new", "loaded", "lazy", "expired"])), "init": draw(st.integers(0, 3)),
             "parents_loaded": True, "ops": [list(o) for o in ops]}
 
